@@ -3,6 +3,9 @@
 set -e
 cd "$(dirname "$0")"
 mkdir -p _build
+if [ -x _build/c16_driver ] && [ _build/c16_driver -nt Model.v ] && [ _build/c16_driver -nt Extract.v ] && [ _build/c16_driver -nt driver.ml ]; then
+  echo "up to date $(pwd)/_build/c16_driver"; exit 0
+fi
 if [ ! -f Model.vo ] || [ Model.v -nt Model.vo ]; then
   timeout 600 coqc -Q . Find Model.v
 fi
